@@ -1248,6 +1248,15 @@ Section PROOFS.
         unfold vcount. now rewrite fold_left_map'.
     Qed.
 
+    Lemma sem_buckets_step k c dur m es i n : agg_specified k = true ->
+      sem_buckets V v0 v1 vadd vdiv vltb vofZ fpf k c dur m es i (S n) =
+      match sem_bucket_value V v0 v1 vadd vdiv vltb vofZ k dur (filter (fun e => bucket_of V c dur e =? i) es) with
+      | Some v => {| e_ts := c_from c + i * dur; e_fp := fpf m; e_lbl := Some m; e_msg := EmptyString; e_val := v; e_err := ENone |}
+                  :: sem_buckets V v0 v1 vadd vdiv vltb vofZ fpf k c dur m es (i + 1) n
+      | None => sem_buckets V v0 v1 vadd vdiv vltb vofZ fpf k c dur m es (i + 1) n
+      end.
+    Proof. intros Hk. destruct k as [fn|fn|fn]; destruct fn; try discriminate Hk; reflexivity. Qed.
+
     (* one series against the reference: same buckets, same values, same entries *)
     Lemma series_sem k c dur m f l : agg_specified k = true -> f = fpf m ->
       (forall e, In e l -> N.eqb (e_fp V e) f = lbls_eqb (lbl_of V e) m) ->
@@ -1268,7 +1277,7 @@ Section PROOFS.
                      if vltb v0 (snd an) then [mk_out c dur f (Some m) (Z.of_nat b) (fin_fn k dur (fst an) (snd an))] else []) (seq i n) =
                   sem_buckets V v0 v1 vadd vdiv vltb vofZ fpf k c dur m (filter (fun e => lbls_eqb (lbl_of V e) m) l) (Z.of_nat i) n);
         [|exact (G 0%nat)].
-      induction n as [|n IH]; intros i; cbn [seq flat_map sem_buckets]; [reflexivity|].
+      induction n as [|n IH]; intros i; [reflexivity|]. rewrite (sem_buckets_step k c dur m _ (Z.of_nat i) n Hk). cbn [seq flat_map].
       rewrite IH. replace (Z.of_nat i + 1) with (Z.of_nat (S i)) by lia. rewrite Hsel.
       set (es := filter (fun e => bucket_of V c dur e =? Z.of_nat i) (filter (fun e => lbls_eqb (lbl_of V e) m) l)).
       destruct es as [|e0 r] eqn:Ees.
@@ -1358,3 +1367,36 @@ Lemma hash_collision_witness : forall ch64 : string -> N,
   fingerprint ch64 [("a", "bc")]%string = fingerprint ch64 [("ab", "c")]%string.
 Proof. intros ch64. apply fingerprint_kv. reflexivity. Qed.
 
+
+(* ============================================================================================ *)
+(* planner.go GetBreakpoint / breakScript *)
+Lemma first_break_split : forall ps i, 0 <= i ->
+  (first_break ps i = -1 /\ forallb (fun p => negb (breaking p)) ps = true) \/
+  (exists pre p post, ps = pre ++ p :: post /\ first_break ps i = i + Z.of_nat (List.length pre) /\
+                      breaking p = true /\ forallb (fun p => negb (breaking p)) pre = true).
+Proof.
+  induction ps as [|p r IH]; intros i Hi; cbn [first_break forallb].
+  - left. split; reflexivity.
+  - destruct (breaking p) eqn:B.
+    + right. exists [], p, r. cbn. repeat split; auto. lia.
+    + destruct (IH (i + 1)) as [[E F]|[pre [q [post [E1 [E2 [E3 E4]]]]]]]; [lia| |].
+      * left. split; [exact E|]. cbn. exact F.
+      * right. exists (p :: pre), q, post. cbn [app List.length forallb]. rewrite B. cbn [negb andb].
+        repeat split; auto; [now rewrite E1|]. rewrite E2. lia.
+Qed.
+
+Lemma split_sound absent ps :
+  clickhouse_pipes absent ps ++ internal_pipes absent ps = ps /\
+  forallb (fun p => negb (breaking p)) (clickhouse_pipes absent ps) = true /\
+  match internal_pipes absent ps with [] => True | p :: _ => breaking p = true end.
+Proof.
+  unfold clickhouse_pipes, internal_pipes, get_breakpoint.
+  destruct (first_break_split ps 0 (Z.le_refl 0)) as [[E F]|[pre [p [post [E1 [E2 [E3 E4]]]]]]].
+  - rewrite E. assert (H : (if absent && (-1 <? 0) then -2 else -1) <? 0 = true) by (destruct absent; reflexivity).
+    rewrite H. rewrite app_nil_r. auto.
+  - rewrite E2. cbn [Z.add]. assert (H : (0 + Z.of_nat (List.length pre) <? 0) = false) by (apply Z.ltb_ge; lia).
+    replace (0 + Z.of_nat (List.length pre)) with (Z.of_nat (List.length pre)) in * by lia.
+    rewrite H, andb_false_r, H, Nat2Z.id, E1.
+    rewrite firstn_app, Nat.sub_diag, firstn_all. cbn [firstn]. rewrite app_nil_r.
+    rewrite skipn_app, Nat.sub_diag, skipn_all. cbn [skipn app]. auto.
+Qed.
